@@ -196,11 +196,45 @@ Section RT.
       rewrite map_app. cbn [map bare repeat app]. rewrite Fe, app_nil_r. reflexivity.
   Qed.
 
+  (* a list item written back: its blocks behind the marker and the indentation; with the blank line that is its last child when another item follows *)
+  Lemma rt_item mk pad ts lo (blank : bool) :
+    marker_okb mk && Nat.leb 1 pad && Nat.leb pad 4 && seq_ok_b ts && forallb wf_b ts && good_b (join_blank (map spell ts)) &&
+      negb (thematic_start (item_first_line mk pad (join_blank (map spell ts)))) = true ->
+    Forall RT ts ->
+    block_lines o None (ListItem (mkItem (marker_str mk) 0 (Z.of_nat (length (marker_str mk) + pad)) lo) (tok_seq true ts ++ (if blank then [BlankLine] else []))) =
+    map bare (item_lines mk pad (join_blank (map spell ts))) ++ (if blank then [[]] else []).
+  Proof.
+    intros Hw Hch. repeat rewrite andb_true_iff in Hw. destruct Hw as [[[[[[Hmk Hp1] Hp4] Hs] Hall] Hg] Hth].
+    apply marker_ok_reflect in Hmk. apply Nat.leb_le in Hp1, Hp4.
+    assert (Hne : ts <> []) by (destruct ts; [discriminate|discriminate]).
+    pose proof (rt_seq ts Hch Hne) as E. unfold o in E.
+    destruct (good_lines _ Hg) as (c0 & body0 & rest & El & Hc0 & _ & _ & _ & _ & _).
+    destruct (marker_first mk Hmk) as (m0 & mr & Em & Hm0).
+    assert (Sm0 : is_space_c m0 = false).
+    { unfold mfirst_ok in Hm0. repeat rewrite andb_true_iff in Hm0. destruct Hm0 as [[[[_ H3] _] _] _]. apply negb_true_iff in H3. exact H3. }
+    cbn [block_lines sub_opt normalize_ws i_prepend i_indentation i_leader]. unfold o. cbn [normalize_ws].
+    rewrite flat_map_app, E, El.
+    assert (Eb : flat_map (block_lines (mkMopts false) None) (if blank then [BlankLine] else []) = map bare (if blank then [SBlank] else [])) by (destruct blank; reflexivity).
+    rewrite Eb, <- map_app. cbn [map or_blank bare repeat app].
+    unfold item_lines. rewrite Em.
+    set (w := (length (m0 :: mr) + pad)%nat).
+    assert (Ew : spaces (Z.of_nat w) = repeat 32 w) by (unfold spaces; rewrite Nat2Z.id; reflexivity).
+    assert (Ep : spaces (Z.of_nat w - len (m0 :: mr) - 0) = repeat 32 pad).
+    { unfold spaces, len, w. f_equal. lia. }
+    unfold prefix_lines. rewrite Ew. destruct w as [|w'] eqn:Ew0; [unfold w in Ew0; cbn [length] in Ew0; lia|].
+    cbn [repeat prefix_from]. change (32 :: repeat 32 w') with (repeat 32 (S w')).
+    rewrite (prefix_from_false_embed _ (S w') (rest ++ if blank then [SBlank] else []) (Nat.lt_0_succ _)).
+    rewrite Ep. cbn [spaces Z.to_nat repeat app map bare nonempty orb].
+    rewrite !map_app. destruct blank; cbn [map embed_s bare]; rewrite <- ?app_assoc; cbn [app]; rewrite ?app_nil_r; reflexivity.
+  Qed.
+
   Lemma rt_all : forall f t, (depth t <= f)%nat -> wf_b t = true -> RT t.
   Proof.
-    induction f as [|f IH]; intros t Hd Hw.
-    - destruct t as [c body more|ch n content|ts|mk pad ts|lv hc hb|rc rn|e0 epre ech edbl ew epost]; [apply rt_para; exact Hw|apply rt_fence; assumption|cbn [depth] in Hd; lia|cbn [depth] in Hd; lia|apply rt_head; exact Hw|apply rt_rule|apply rt_em; exact Hw].
-    - destruct t as [c body more|ch n content|ts|mk pad ts|lv hc hb|rc rn|e0 epre ech edbl ew epost]; [apply rt_para; exact Hw|apply rt_fence; assumption| | |apply rt_head; exact Hw|apply rt_rule|apply rt_em; exact Hw].
+    induction f as [|f IH].
+    - intros t Hd Hw.
+      destruct t as [c body more|ch n content|ts|mk pad ts|mk pad ts next|lv hc hb|rc rn|e0 epre ech edbl ew epost]; [apply rt_para; exact Hw|apply rt_fence; assumption|cbn [depth] in Hd; lia|cbn [depth] in Hd; lia|cbn [depth] in Hd; lia|apply rt_head; exact Hw|apply rt_rule|apply rt_em; exact Hw].
+    - intros t. induction t as [c body more|ch n content|ts|mk pad ts|mk pad ts next IHn|lv hc hb|rc rn|e0 epre ech edbl ew epost]; intros Hd Hw;
+        [apply rt_para; exact Hw|apply rt_fence; assumption| | | |apply rt_head; exact Hw|apply rt_rule|apply rt_em; exact Hw].
       + (* quote *)
         cbn [wf_b] in Hw. repeat rewrite andb_true_iff in Hw. destruct Hw as [[Hs Hall] Hg].
         assert (Hch : Forall RT ts).
@@ -209,30 +243,30 @@ Section RT.
         pose proof (rt_seq ts Hch Hne) as E. unfold o in E.
         unfold RT, md_lines. cbn [tok_of block_lines sub_opt spell]. change ((fix seq (ts0 : list ftree) : list tok := match ts0 with [] => [] | t :: r => tok_of true t :: match r with [] => [] | _ :: _ => blank_tok true ++ seq r end end) ts) with (tok_seq true ts).
         rewrite E. apply prefix_quote.
-      + (* item *)
-        cbn [wf_b] in Hw. repeat rewrite andb_true_iff in Hw. destruct Hw as [[[[[[Hmk Hp1] Hp4] Hs] Hall] Hg] Hth].
-        apply marker_ok_reflect in Hmk. apply Nat.leb_le in Hp1, Hp4.
+      + (* a list of one item *)
+        cbn [wf_b] in Hw. pose proof Hw as Hw0. repeat rewrite andb_true_iff in Hw. destruct Hw as [[[[[[Hmk Hp1] Hp4] Hs] Hall] Hg] Hth].
         assert (Hch : Forall RT ts).
         { apply Forall_forall. intros x Hx. rewrite forallb_forall in Hall. apply IH; [eapply depth_children; eassumption|apply Hall; exact Hx]. }
-        assert (Hne : ts <> []) by (destruct ts; [discriminate|discriminate]).
-        pose proof (rt_seq ts Hch Hne) as E. unfold o in E.
-        destruct (good_lines _ Hg) as (c0 & body0 & rest & El & Hc0 & _ & _ & _ & _ & _).
-        destruct (marker_first mk Hmk) as (m0 & mr & Em & Hm0).
-        assert (Sm0 : is_space_c m0 = false).
-        { unfold mfirst_ok in Hm0. repeat rewrite andb_true_iff in Hm0. destruct Hm0 as [[[[_ H3] _] _] _]. apply negb_true_iff in H3. exact H3. }
-        unfold RT, md_lines. cbn [tok_of block_lines flat_map sub_opt spell normalize_ws i_prepend i_indentation i_leader].
+        unfold RT, md_lines. cbn [tok_of spell].
         change ((fix seq (ts0 : list ftree) : list tok := match ts0 with [] => [] | t :: r => tok_of true t :: match r with [] => [] | _ :: _ => blank_tok true ++ seq r end end) ts) with (tok_seq true ts).
-        rewrite app_nil_r. rewrite E, El. cbn [map or_blank bare repeat app].
-        unfold item_lines. rewrite Em.
-        set (w := (length (m0 :: mr) + pad)%nat).
-        assert (Ew : spaces (Z.of_nat w) = repeat 32 w) by (unfold spaces; rewrite Nat2Z.id; reflexivity).
-        assert (Ep : spaces (Z.of_nat w - len (m0 :: mr) - 0) = repeat 32 pad).
-        { unfold spaces, len, w. f_equal. lia. }
-        unfold prefix_lines. rewrite Ew. destruct w as [|w'] eqn:Ew0; [unfold w in Ew0; cbn [length] in Ew0; lia|].
-        cbn [repeat prefix_from]. change (32 :: repeat 32 w') with (repeat 32 (S w')).
-        rewrite (prefix_from_false_embed _ (S w') rest (Nat.lt_0_succ _)).
-        rewrite Ep. cbn [spaces Z.to_nat repeat app map bare nonempty orb].
-        rewrite <- app_assoc. cbn [app]. reflexivity.
+        pose proof (rt_item mk pad ts (negb true && (1 <? Z.of_nat (length ts))) false Hw0 Hch) as RI. rewrite !app_nil_r in RI.
+        cbn [block_lines flat_map]. rewrite app_nil_r. exact RI.
+      + (* an item and the rest of the list *)
+        cbn [wf_b] in Hw. repeat rewrite andb_true_iff in Hw. destruct Hw as [[[Hw Hin] Hk] Hwn].
+        assert (Hw' : marker_okb mk && Nat.leb 1 pad && Nat.leb pad 4 && seq_ok_b ts && forallb wf_b ts && good_b (join_blank (map spell ts)) &&
+                      negb (thematic_start (item_first_line mk pad (join_blank (map spell ts)))) = true) by (repeat rewrite andb_true_iff; exact Hw).
+        destruct Hw as [[[[[[Hmk Hp1] Hp4] Hs] Hall] Hg] Hth].
+        cbn [depth] in Hd.
+        assert (Hch : Forall RT ts).
+        { apply Forall_forall. intros x Hx. rewrite forallb_forall in Hall. apply IH; [eapply depth_children; [exact Hx|lia]|apply Hall; exact Hx]. }
+        specialize (IHn ltac:(lia) Hwn). unfold RT, md_lines in IHn |- *.
+        destruct (tok_of_chain_is_list true next Hin Hwn) as (s2 & lo2 & items & E2).
+        cbn [tok_of spell]. rewrite E2 in *.
+        change ((fix seq (ts0 : list ftree) : list tok := match ts0 with [] => [] | t :: r => tok_of true t :: match r with [] => [] | _ :: _ => blank_tok true ++ seq r end end) ts) with (tok_seq true ts).
+        pose proof (rt_item mk pad ts (negb true) true Hw' Hch) as RI. cbn [blank_tok].
+        match goal with |- block_lines ?oo None (List ?s ?l (?x :: items)) = _ =>
+          change (block_lines oo None (List s l (x :: items))) with (block_lines o None x ++ block_lines o None (List s2 lo2 items)) end.
+        rewrite RI. unfold o. rewrite IHn. rewrite map_app. cbn [map bare]. rewrite <- app_assoc. reflexivity.
   Qed.
 End RT.
 
